@@ -37,6 +37,11 @@ def correspondence(ctx):
     out["failing_inputs"] += afails
     nstat["array_synonym_checks"] += astat.pop("alias_value_checks")
     nstat.update(astat)
+    rb, rn = raw_awkward_spellings()
+    out["disagreements"] += rb[:6]
+    out["failing_inputs"] += [{"key": "awkward-raw-spelling:" + d.split(":")[0], "what": d[:300], "code": RAW_REPLAY} for d in rb[:3]]
+    nstat["raw_awkward_spelling_reads"] = rn
+    nstat["array_synonym_checks"] += rn
     out["stats"]["setter_steps"] = len(pairs)
     out["stats"].update(nstat)
     out["stats"]["traces_validated_against_impl"] += len(pairs) + nstat["array_synonym_checks"]
@@ -144,3 +149,59 @@ def alias_values(ctx, r):
                 dis.append(f"numba-compiled {toks[0]}: .{s_} = {a} but .{g} = {b} (interpreter .{s_} = {interp[2 * k]})")
                 fails.append({"key": f"numba-alias:{s_}", "what": dis[-1][:300], "code": c07.probe_replay(src, toks)})
     return dis[:10], {"alias_value_checks": n, "numba_alias_programs": len(jobs)}, fails[:4]
+
+
+RAW_SPELL_CODE = r"""
+import sys, json, itertools
+sys.path.insert(0, %r); sys.path.insert(0, %r)
+import numpy, awkward as ak, vector
+vector.register_awkward()
+READ = ["x", "y", "rho", "phi", "z", "theta", "eta", "t", "tau", "px", "py", "pt", "pz", "E", "e", "energy", "M", "m", "mass", "mag", "p", "Et", "Mt", "tau2", "mass2", "t2", "energy2"]
+SYN = {"x": ["px"], "y": ["py"], "rho": ["pt"], "z": ["pz"], "t": ["E", "e", "energy"], "tau": ["M", "m", "mass"]}
+vals = {"x": [3.0, -1.5, 0.25], "y": [4.0, 2.0, -0.5], "rho": [5.0, 2.5, 0.75], "phi": [0.3, -2.0, 1.1], "z": [1.0, -2.0, 0.5], "theta": [0.4, 2.0, 1.3],
+        "eta": [0.5, -1.2, 2.0], "t": [20.0, 11.0, 7.5], "tau": [4.0, 0.25, 1.5]}
+bad, n = [], 0
+for az in (("x", "y"), ("rho", "phi")):
+    for lon in (None, "z", "theta", "eta"):
+        for tmp in ((None,) if lon is None else (None, "t", "tau")):
+            geo = list(az) + ([lon] if lon else []) + ([tmp] if tmp else [])
+            dim = len(geo)
+            ref = ak.zip({g: vals[g] for g in geo}, with_name=f"Momentum{dim}D")
+            for g in geo:
+                for syn in SYN.get(g, []):
+                    names = [syn if q == g else q for q in geo]
+                    arr = ak.zip({nm: vals[q] for nm, q in zip(names, geo)}, with_name=f"Momentum{dim}D")
+                    jag = ak.unflatten(arr, [2, 0, 1])
+                    for rd in READ:
+                        if not hasattr(ref, rd):
+                            continue
+                        n += 1
+                        try:
+                            want = ak.to_list(getattr(ref, rd))
+                            got = ak.to_list(getattr(arr, rd))
+                            gotj = ak.to_list(ak.flatten(getattr(jag, rd)))
+                            gotr = getattr(arr[1], rd)
+                        except Exception as e:
+                            bad.append(f"{syn}: Momentum{dim}D with fields {names}: reading .{rd} raises {type(e).__name__}: {str(e)[:60]}")
+                            continue
+                        if got != want or gotj != want or float(gotr) != float(want[1]):
+                            bad.append(f"{syn}: Momentum{dim}D array with raw fields {names}: .{rd} = {got} (record: {float(gotr)}), with geometric fields {geo} it is {want}")
+print("JSON" + json.dumps([bad, n]))
+"""
+RAW_REPLAY = ("import sys; sys.path.insert(0, %r); sys.path.insert(0, %r)\nfrom harness import c14\nbad, n = c14.raw_awkward_spellings()\nassert not bad, bad[0]\n"
+              % (C.VERIF, C.VERIF + "/tools"))
+
+
+def raw_awkward_spellings():
+    """Awkward momentum arrays whose RECORDS carry the momentum spelling as the field name (ak.zip(..., with_name='Momentum4D') under
+    registered behaviors - vector.zip would rename the field): every reader gives what the geometric spelling gives, on flat and jagged
+    arrays and on a selected record, for every spelling of every coordinate (px py pt pz E e energy M m mass)"""
+    import json
+    import subprocess
+    import sys
+    p = subprocess.run([sys.executable, "-c", RAW_SPELL_CODE % (C.VERIF, C.VERIF + "/tools")], capture_output=True, text=True, timeout=900)
+    line = [l for l in p.stdout.splitlines() if l.startswith("JSON")]
+    if not line:
+        raise RuntimeError("raw awkward spelling probe failed: " + p.stderr[-400:])
+    bad, n = json.loads(line[0][4:])
+    return bad, n
